@@ -9,14 +9,16 @@ import random
 
 from .. import common, identlib
 from ..gen import cfggen, edits
-from ..translate import hashflags
+from ..translate import hashflags, argflags
 
 PROP = "C02"
-MODULES = ["XpmVerif.Properties.C02"]
+MODULES = ["XpmVerif.Properties.C02", "XpmVerif.Properties.C02Decl", "XpmVerif.Properties.C02Env", "XpmVerif.Proofs.ArgDecl"]
 
 
 def prove(ctx):
     msgs = [hashflags.generate(common.REPO, common.LEAN, probe=identlib.loop_flag_probe(ctx))]
+    msgs.append(argflags.generate(common.REPO, common.LEAN))   # Generated/ArgFlags.lean: the driver derives the argument flags with it
+    ctx.notes.append(f"translator(argflags): {msgs[-1][1]}")
     common.check_proofs(ctx, MODULES, translate_msgs=msgs)
 
 
@@ -137,6 +139,9 @@ def correspond(ctx):
         if len(set(ids.values()) | {rec["unsubmitted"]}) != 1:
             ctx.monitor_fail("environment-changes-identifier", f"identifier depends on launcher / workspace / run mode: {ids}, unsubmitted {rec['unsubmitted']}",
                              {"graph": case["graph"], "identifiers": ids})
+        if rec.get("lines"):
+            # the three submissions through the model, launcher / workspace / run mode being inputs of it (Model/IdentEnv.lean)
+            good.append((case, rec))
     # Meta / Option values that were loaded from a saved definition (state dict, save/load) instead of built in Python
     mcases = []
     for _ in range(ctx.scale(12, 120)):
